@@ -18,6 +18,8 @@ CLAIMED = {
              note="bare dict actions in batches (ambiguous by design), one-action PMF columns, numpy/torch outside the claim"),
  'C13': dict(design='C13', text="Row pipelines built from the real HeadRows/EncodeRows/DropRows/LabelRows over list/tuple/LazyDense/dict/LazySparse bases run on symbolic integer cells with affine encoders; symbolic positions and row predicates fork in the solver; every access kind, in forward and reverse order, is compared with an eager list/dict model; plus the real ArffReader's lazy rows over a grid of missing-value placements.",
              note="width<=3 (4 thorough), 2 rows; EncodeCatRows, negative/out-of-range positions outside the claim"),
+ 'C16': dict(design='C16', text="Random/Fixed/BanditEpsilon/BanditUCB and Misguided wrappers run through solver-enumerated histories (3 rounds, changing action sets incl. unseen and disappearing actions, hashable/int/dense/sparse actions, on-policy and logged learning) with symbolic rewards; ties between value estimates and UCB bounds (sqrt by contract) are decided by z3 so every tie pattern is reached; score() must be a distribution over the offered actions and predict() must return an offered action with exactly its score. Corral: enumerated concrete grid only (its root search is not symbolically encodable).",
+             note="Corral's 1e-4 weight claim is checked on a concrete grid of 3-round histories only and stated as such; T<=3 (4 thorough)"),
  'C17': dict(design='C17', text="Table.insert/index/where/groupby/copy run on symbolic integer cells; orderings are decided by z3 inside the real sorted/bisect calls; every operator, form, index column list and short operation history within the bounds is compared with a row-by-row list model. Bounded (rows<=3 quick, <=4 thorough), exhaustive within the bound.",
              note="cells int[-1,1] or Missing; 'match'/regex outside the claim; Missing ordering reference = the table's own scan path"),
 }
